@@ -1,4 +1,5 @@
 import DL.Lemmas.Pipe
+import DL.Lemmas.DirSpec
 
 /-!
 # C06 — ignore directives suppress exactly the diagnostics they name
@@ -92,5 +93,54 @@ example :
     let st : St := { file := some ⟨0, 0, ["a"]⟩, lines := [(2, ⟨30, 2, ["b"]⟩)] }
     let raw : List Diag := [⟨"a", some (50, 5), .raw 0⟩, ⟨"b", some (40, 3), .raw 1⟩, ⟨"b", some (60, 6), .raw 2⟩]
     raw.filter (fun d => !suppressed st d) = [⟨"b", some (60, 6), .raw 2⟩] := by decide
+
+/-! ## "the way codes are separated … or an appended `-- reason` does not change which codes are meant" -/
+open DL.Dir in
+/-- what `parse_ignore_comment` returns is the token list of the text between the directive word and the reason -/
+theorem directive_codes_are_tokens (word : List Char) (kind : Kind) (text : List Char) (cs : List (List Char))
+    (h : parseIgnore word kind text = some cs) :
+    ∃ rest, word.isPrefixOf? (trim text) = some rest ∧ cs = tokens (stripReason rest) := by
+  unfold parseIgnore at h
+  by_cases hk : (kind != Kind.line) = true
+  · rw [if_pos hk] at h; cases h
+  · rw [if_neg hk] at h
+    simp only at h
+    cases hfw : firstWord (trim text) with
+    | none => rw [hfw] at h; cases h
+    | some p =>
+      rw [hfw] at h
+      simp only at h
+      by_cases hp : p = word
+      · rw [if_pos hp] at h
+        cases hpre : word.isPrefixOf? (trim text) with
+        | none => rw [hpre] at h; cases h
+        | some rest =>
+          rw [hpre] at h
+          simp only at h
+          injection h with h
+          exact ⟨rest, rfl, by rw [← h]; exact codes_eq_tokens _⟩
+      · rw [if_neg hp] at h; cases h
+
+open DL.Dir in
+/-- **separator independence**: codes `c1 … cn` separated by arbitrary non-empty mixtures of white space and commas
+(with arbitrary leading separators, optional trailing ones) always denote `[c1, …, cn]` -/
+theorem separator_independence (s0 : List Char) (l : List (List Char × List Char)) (h0 : IsSeps s0)
+    (hl : ∀ ws ∈ l, IsCode ws.1 ∧ IsSeps ws.2) (hsep : ∀ i, i + 1 < l.length → (l[i]?.map (·.2)) ≠ some []) :
+    tokens (s0 ++ joinCodes l) = l.map (·.1) := tokens_joinCodes s0 l h0 hl hsep
+
+open DL.Dir in
+/-- **reason independence**: appending white space, `--` and any reason to a reason-free code text denotes the same
+codes (at least one white-space character before the dashes: `a---r` means `a`, see `DirSpec`) -/
+theorem reason_independence (x : List Char) (w : Char) (ws r : List Char) (hx : stripReason x = x)
+    (hw : isWs w = true) (hws : AllWs ws) :
+    tokens (stripReason (x ++ (w :: ws ++ '-' :: '-' :: r))) = tokens x := tokens_stripReason_append x w ws r hx hw hws
+
+/-! the three spellings of the property text, evaluated on the model parser itself -/
+example : DL.Dir.parseIgnore (chars! "deno-lint-ignore") .line (chars! " deno-lint-ignore no-var no-eval") =
+    some [chars! "no-var", chars! "no-eval"] := by decide
+example : DL.Dir.parseIgnore (chars! "deno-lint-ignore") .line (chars! " deno-lint-ignore no-var,no-eval") =
+    some [chars! "no-var", chars! "no-eval"] := by decide
+example : DL.Dir.parseIgnore (chars! "deno-lint-ignore") .line (chars! " deno-lint-ignore no-var ,\t no-eval  -- because, reasons") =
+    some [chars! "no-var", chars! "no-eval"] := by decide
 
 end DL.Props.C06
